@@ -128,6 +128,11 @@ pub struct Walk {
     summary: BTreeMap<&'static str, String>,
     summary_known: bool,
     session_ok: bool,
+    /// what the independent decoder reads from the entries of the last `load` (C02)
+    loaded: Option<BTreeMap<String, (Vec<ColDef>, Vec<Vec<V>>)>>,
+    loaded_summary: Option<BTreeMap<u32, decode::PVal>>,
+    loaded_streams: BTreeMap<String, String>,
+    is_foreign: bool,
 }
 
 impl Walk {
@@ -136,7 +141,7 @@ impl Walk {
             out: vec![], checked: 0, nontrivial: HashSet::new(), db: RefDb::default(), db_known: false,
             last_snap: None, ok_mutation_since_snap: false, before_reopen: None, after_reopen: false,
             streams: BTreeMap::new(), streams_known: false, summary: BTreeMap::new(), summary_known: false,
-            session_ok: false,
+            session_ok: false, loaded: None, loaded_summary: None, loaded_streams: BTreeMap::new(), is_foreign: false,
         }
     }
     fn fail(&mut self, tags: &[&'static str], i: usize, q: &str, r: &str, why: String) {
@@ -153,6 +158,8 @@ impl Walk {
         }
         match t[0] {
             "new" => {
+                self.is_foreign = false;
+                self.loaded = None;
                 self.db = RefDb::default();
                 self.db_known = r == "ok";
                 self.session_ok = r == "ok";
@@ -178,6 +185,28 @@ impl Walk {
                 self.before_reopen = None;
                 self.streams_known = false;
                 self.summary_known = false;
+                self.is_foreign = true;
+                self.loaded = None;
+                self.loaded_summary = None;
+                self.loaded_streams.clear();
+                // what an independent decoder of the format reads from these streams
+                if let Some(entries) = crate::session::parse_entries(t[2]) {
+                    if let Ok(d) = decode::decode(&entries) {
+                        if d.problems.is_empty() && t[1] != "none" {
+                            self.loaded = Some(decode::expected_tables(&d));
+                            self.loaded_summary = entries.iter().find(|e| e.0 == "\u{5}SummaryInformation").and_then(|e| decode::parse_propset(&e.1));
+                            for (n, data) in &entries {
+                                let (dn, is_table) = decode::unpack_name(n);
+                                if !is_table && !n.starts_with('\u{5}') {
+                                    self.loaded_streams.insert(hex_of_str(&dn), hex_of_bytes(data));
+                                }
+                            }
+                            if r != "ok" {
+                                self.fail(&["C02"], i, q, r, "a well-formed database written by the independent encoder is refused".into());
+                            }
+                        }
+                    }
+                }
             }
             _ if !self.session_ok => {}
             "create_table" => {
@@ -496,6 +525,66 @@ impl Walk {
                 self.fail(&["C04"], i, q, r, format!("only rejected calls since the previous snapshot, yet {why}"));
             }
         }
+        if let Some(exp) = self.loaded.take() {
+            // C02: opening reports exactly the encoded tables, column definitions and rows
+            let have: Vec<&String> = snap.tables.keys().filter(|n| *n != "_Tables" && *n != "_Columns").collect();
+            let want: Vec<&String> = exp.keys().collect();
+            if have != want {
+                self.fail(&["C02"], i, q, r, format!("tables reported {have:?}, the file encodes {want:?}"));
+            }
+            for (n, (cols, rows)) in &exp {
+                if let Some(ts) = snap.tables.get(n) {
+                    let mut a = ts.cols.clone();
+                    for c in a.iter_mut() {
+                        c.fk = None;
+                    }
+                    if a != *cols {
+                        self.fail(&["C02"], i, q, r, format!("table {n}: columns reported {:?}, encoded {:?}", a.iter().map(|c| c.tok()).collect::<Vec<_>>(), cols.iter().map(|c| c.tok()).collect::<Vec<_>>()));
+                    }
+                    match &ts.rows {
+                        Ok(rws) => {
+                            if rws != rows {
+                                self.fail(&["C02"], i, q, r, format!("table {n}: rows reported {:?}, encoded {:?}", rws.iter().take(4).collect::<Vec<_>>(), rows.iter().take(4).collect::<Vec<_>>()));
+                            }
+                        }
+                        Err(e) => self.fail(&["C02"], i, q, r, format!("table {n} cannot be read: {e}")),
+                    }
+                }
+            }
+            if snap.streams != self.loaded_streams {
+                self.fail(&["C02"], i, q, r, format!("streams reported {:?}, the file holds {:?}", snap.streams.keys().collect::<Vec<_>>(), self.loaded_streams.keys().collect::<Vec<_>>()));
+            }
+            if let Some(ps) = self.loaded_summary.take() {
+                let cp = match ps.get(&1) { Some(decode::PVal::I2(x)) => *x as u16 as u32, _ => 65001 };
+                let text = |id: u32| -> String {
+                    match ps.get(&id) {
+                        Some(decode::PVal::Str(b)) => hex_of_str(&decode::decode_text(cp, b)),
+                        _ => "-".into(),
+                    }
+                };
+                for (id, key) in [(2u32, "title"), (3, "subject"), (4, "author"), (6, "comments"), (18, "app")] {
+                    let have = snap.summary_field(key).unwrap_or_default();
+                    if have != text(id) {
+                        self.fail(&["C02"], i, q, r, format!("summary {key}: reported {have}, encoded {}", text(id)));
+                    }
+                }
+                let wc = match ps.get(&15) { Some(decode::PVal::I4(x)) => x.to_string(), _ => "-".into() };
+                if snap.summary_field("wc").unwrap_or_default() != wc {
+                    self.fail(&["C02"], i, q, r, format!("summary word count: reported {:?}, encoded {wc}", snap.summary_field("wc")));
+                }
+                if snap.summary_field("cp").unwrap_or_default() != (if cp == 0 { 65001 } else { cp }).to_string() {
+                    self.fail(&["C02"], i, q, r, format!("summary code page: reported {:?}, encoded {cp}", snap.summary_field("cp")));
+                }
+                if let Some(decode::PVal::Time(t)) = ps.get(&12) {
+                    let ns: i128 = (*t as i128 - 116_444_736_000_000_000) * 100;
+                    let want = format!("{}.{}", ns.div_euclid(1_000_000_000), ns.rem_euclid(1_000_000_000));
+                    if snap.summary_field("ctime").unwrap_or_default() != want {
+                        self.fail(&["C02"], i, q, r, format!("creation time: reported {:?}, encoded {want}", snap.summary_field("ctime")));
+                    }
+                }
+            }
+            self.nontrivial.insert(format!("loaded {}", r.len()));
+        }
         if !self.db_known {
             // adopt the implementation's view (foreign file, or after a reported divergence)
             self.db = RefDb::default();
@@ -779,8 +868,9 @@ impl Walk {
             Err(e) => self.fail(&["C08"], i, q, r, format!("independent decoder: {e}")),
             Ok(d) => {
                 self.nontrivial.insert(format!("raw {}", r.len()));
-                for p in d.problems.iter().chain(d.accounting_problems().iter()) {
-                    self.fail(&["C08"], i, q, r, format!("independent decoder: {p}"));
+                let acct = if self.is_foreign { vec![] } else { d.accounting_problems() };
+                for p in d.problems.iter().chain(acct.iter()) {
+                    self.fail(&["C08", "C02"], i, q, r, format!("independent decoder: {p}"));
                 }
                 let last = self.last_snap.clone();
                 if let Some((_, snap)) = &last {
@@ -806,7 +896,7 @@ impl Walk {
                         }
                     }
                     for f in fails {
-                        self.fail(&["C08"], i, q, r, f);
+                        self.fail(&["C08", "C02"], i, q, r, f);
                     }
                 }
             }
